@@ -143,6 +143,12 @@ def dumpPart (p : Nat) : M String := do
     bl := bl ++ [showPDict (← getP x).d ++ "->[" ++ String.intercalate ";" cells ++ "]"]
   pure s!"d={pr.d} blocks=[{String.intercalate " " bl}] cons=[{String.intercalate " ## " items}]"
 
+def showSpec (sp : Pepit.Method.Spec) : String :=
+  let sm := sp.samples.map fun t => showPDict t.1 ++ "|" ++ showPDict t.2.1 ++ "|" ++ showEDict t.2.2
+  let ini := sp.init.map fun c => (if c.2 then "eq" else "le") ++ "|" ++ showEDict c.1
+  let me := sp.metrics.map showEDict
+  s!"samples=[{String.intercalate ";" sm}] init=[{String.intercalate ";" ini}] metrics=[{String.intercalate ";" me}]"
+
 def parseRats (l : List String) : Option (List Rat) := l.mapM parseRat
 
 def readMatrix (e : Env) (n : Nat) (toks : List String) : Except String (List (List Nat)) := do
@@ -397,6 +403,14 @@ def stepCore (e : Env) (line : String) : Env × String :=
       if r == 0 then pure (e, "err ZeroDivisionError") else
       let (h, e) ← runM e (fnSmul (1 / r) ha)
       pure (bind1 e n h, "ok")
+    | "spec.gdc" :: _ :: g :: ns :: _ =>
+      let some γ := parseRat g | throw "bad rat"
+      let some n := ns.toNat? | throw "bad n"
+      pure (e, showSpec (Pepit.Method.gdc γ n))
+    | "spec.subg" :: _ :: g :: ns :: _ =>
+      let some γ := parseRat g | throw "bad rat"
+      let some n := ns.toNat? | throw "bad n"
+      pure (e, showSpec (Pepit.Method.subg γ n))
     | "note" :: _ => pure (e, "ok")
     | "trace.error" :: _ => pure (e, "ok no-error-expected")
     | ["expect.sent", _] =>
